@@ -7,6 +7,7 @@ import shutil
 import cfggen
 import flow
 import flowgrid
+import flowstep
 import gen
 import mockca
 import vlib
@@ -67,6 +68,16 @@ def part_single(ctx, helper, root):
                         "answer": {"status": 200}, "times": 1, "pair": False, "kp_reuse": False,
                         "hook_exits": {htype: code}})
 
+    # two faults in one attempt: the issuance fails AND a hook of the reporting path fails too
+    for j, (pos, fault, htype) in enumerate([(["newOrder", 0], "err10:unauthorized", "post-operation"),
+                                             (["finalize", 0], "err10:badCSR", "post-operation"),
+                                             (["directory", 0], "drop", "post-operation"),
+                                             (["challenge", 0], "err10:unauthorized", "challenge-http-01-clean")]):
+        base = [s for s in flowgrid.grid(kp_reuse_values=(False,), pair_values=(False,))
+                if s["pos"] == pos and s["fault"] == fault][0]
+        hookscs.append(dict(base, idx=11000 + j, fault=fault + "+hook:%s=1" % htype, times=10 ** 6,
+                            hook_exits={htype: 1}))
+
     def run(s):
         s2 = dict(s)
         if s["pos"][0] == "none":
@@ -74,6 +85,13 @@ def part_single(ctx, helper, root):
         return flowgrid.run_fault(s2, root, helper, n_postop=2, hook_exits=s.get("hook_exits"), timeout=45)
     with concurrent.futures.ThreadPoolExecutor(max_workers=12) as ex:
         results = list(ex.map(run, scs + hookscs))
+    for obs, v in zip(results, flowstep.lockstep_many(results, helper)):
+        ctx.count("lockstep:" + v["status"])
+        if v["status"] == "differ":
+            ctx.disagreements += 1
+            ctx.broke("correspondence Model.Flow.attempt", v["detail"],
+                      {"sc": {k: x for k, x in obs["sc"].items() if k != "answer"}, "model": v.get("model"),
+                       "observed": v.get("observed")})
     jin, keep = [], []
     for obs in results:
         sc = obs["sc"]
